@@ -20,7 +20,7 @@ from pmon import core, monitors, known
 
 TIERS = {
     # tier: (shards, per-shard workload budget in seconds (cap), child timeout)
-    'quick': (2, 45.0, 420),
+    'quick': (2, 100.0, 600),
     'thorough': (14, 420.0, 2400),
 }
 
